@@ -220,6 +220,10 @@ def member_path(n, aliases=None):
     return "_".join(reversed(parts))
 
 
+# set by translators whose executable model is fed type-extreme shift counts (xlate/config.py)
+CAP_VARIABLE_SHIFTS = False
+
+
 def literal_value(n):
     """Value of a (possibly parenthesised / negated) integer literal, else None."""
     while n.get("kind") in ("ParenExpr", "ConstantExpr"):
@@ -321,6 +325,10 @@ def expr(n, cx):
         if op == "%":
             return "(CSem.cmod %s %s)" % (ea, eb)
         if op == "<<":
+            if CAP_VARIABLE_SHIFTS and literal_value(b) is None:
+                # variable shift count: `CSem.shlRaw` caps the exponent at 64 (identical after the <= 64-bit wrap that
+                # always follows; keeps the executable model from building 2^(2^32) for garbage counts)
+                return wrap(ty, "(CSem.shlRaw %s %s)" % (ea, eb))
             return wrap(ty, "(%s * 2 ^ (%s).toNat)" % (ea, eb))
         if op == ">>":
             return "(CSem.shr %s %s)" % (ea, eb)
